@@ -78,7 +78,7 @@ def t_scaling(sess, n_grains, phase, fabric, regime):
     P, F, Rg = kernel.enums()
     N = n_grains
     sess.encode(minerals.Mineral.update_orientations, mods["utils"].extract_vars)
-    sess.bounds["scaling"] = f"n_grains = {N}; k any positive real; L(t, x) and x(t) uninterpreted fields; arbitrary state y; arbitrary valid initial texture"
+    sess.bounds["scaling"] = f"n_grains = {N}; k any positive real; L(t, x) and x(t) uninterpreted fields; arbitrary state y; arbitrary valid initial texture; each right-hand side evaluated a second time after an evaluation at another arbitrary time and state"
     sess.assume_env("the grain kernel _get_rotation_and_strain is a deterministic function of its arguments (stub: same arguments -> same results); core.derivatives itself is the real source")
     sess.assume_env("max |eigenvalue| is positively homogeneous: specrad(k D) = k specrad(D) for k > 0")
     sess.outside_claim("rounding-level agreement of two actual LSODA runs (step-size control in floating point)")
@@ -108,9 +108,20 @@ def t_scaling(sess, n_grains, phase, fabric, regime):
             tot = tot + rmax(y[i], 0)
         c.assume((tot > 0).z3())
         t = real("t")
+        # an earlier evaluation of each right-hand side at another time and state (an integrator calls it many times per
+        # update): whatever the closure keeps between calls -- a cached strain rate or scale, say -- must not leak
+        ta = real("ta")
+        ya = quat.symvec("ya", 10 * N + 9)
+        tota = R(0)
+        for i in range(9 + 9 * N, 9 + 10 * N):
+            tota = tota + rmax(ya[i], 0)
+        c.assume((tota > 0).z3())
+        s1.fun(ta, ya.copy())
         n0 = len(dlog)
         r1 = s1.fun(t, y.copy())
         n1 = len(dlog)
+        s2.fun(ta / k, ya.copy())
+        n2 = len(dlog)
         r2 = s2.fun(t / k, y.copy())
         # homogeneity of the spectral radius, instantiated on the applications that occurred
         apps = c.notes.get("specrad_apps", [])
@@ -119,7 +130,7 @@ def t_scaling(sess, n_grains, phase, fabric, regime):
                 if a1 is a2:
                     continue
                 c.axiom(z3.Implies(z3.And(*[eq(x2, k * x1) for x1, x2 in zip(a1, a2)]), eq(rho2, k * rho1)))
-        return dict(k=k, s1=s1, s2=s2, r1=r1, r2=r2, d1=dlog[n0:n1], d2=dlog[n1:], t0=t0, t1=t1)
+        return dict(k=k, s1=s1, s2=s2, r1=r1, r2=r2, d1=dlog[n0:n1], d2=dlog[n2:], t0=t0, t1=t1)
 
     # kernel stub that is a *function*: per grain the same result symbols for both histories;
     # equality of the arguments it receives is proved separately
